@@ -129,7 +129,7 @@ def main():
                 "evidence_file": f"/verif/evidence/{pid}.json",
                 "replay_cmd_template": f"./check {pid} --replay {{path}}",
                 "engine": eng,
-                "level_claimed": {"category": cat, "text": text, "design_ref": ref},
+                "level_claimed": {"category": cat, "text": text + " Sections and generator classes added after the five rounds of seeded changes (DESIGN.md §10.5.1) run in the same tiers; the evidence file lists every section with its case counts and classes.", "design_ref": ref},
                 "level_note": note,
                 "technique": tech,
             })
